@@ -55,14 +55,37 @@ fn set_state(p: &Path, s: &St) {
     }
     St::Dir(m, names) => {
       fs::create_dir(p).unwrap();
-      for n in names { File::create(p.join(n)).unwrap(); }
+      for n in names { File::create(p.join(decode_name(n))).unwrap(); }
       File::open(p).unwrap().set_modified(time(*m)).unwrap();
     }
   }
 }
 
+// entry names are given (and printed) with %XX escapes, so that names that are not valid UTF-8 can be used
+fn decode_name(s: &str) -> std::ffi::OsString {
+  use std::os::unix::ffi::OsStringExt;
+  let b = s.as_bytes();
+  let mut v = Vec::new();
+  let mut i = 0;
+  while i < b.len() {
+    if b[i] == b'%' && i + 2 < b.len() {
+      let h = std::str::from_utf8(&b[i + 1..i + 3]).unwrap();
+      v.push(u8::from_str_radix(h, 16).unwrap());
+      i += 3;
+    } else { v.push(b[i]); i += 1; }
+  }
+  std::ffi::OsString::from_vec(v)
+}
+fn encode_name(n: &std::ffi::OsStr) -> String {
+  use std::os::unix::ffi::OsStrExt;
+  let mut s = String::new();
+  for &c in n.as_bytes() {
+    if c.is_ascii_alphanumeric() || c == b'_' || c == b'.' || c == b'-' { s.push(c as char); } else { s.push_str(&format!("%{:02X}", c)); }
+  }
+  s
+}
 fn listing(p: &Path) -> Vec<String> {
-  fs::read_dir(p).unwrap().map(|e| e.unwrap().file_name().to_string_lossy().to_string()).collect()
+  fs::read_dir(p).unwrap().map(|e| encode_name(&e.unwrap().file_name())).collect()
 }
 
 fn b(x: bool) -> char { if x { '1' } else { '0' } }
